@@ -161,7 +161,8 @@ def multiprocessing_run(
                     input_data[1] = float(input_data[1])
                     input_data[2] = float(input_data[2])
                     input_data[4] = [float(i.strip()) for i in
-                                     input_data[4].replace('[', '').replace(']', '').split(',') if i != '']
+                                     input_data[4].replace('[', '').replace(']', '').replace('(', '').replace(')', '')
+                                     .split(',') if i.strip() != '']
                     input_data[5] = int(input_data[5])
                     input_data = tuple([input_name] + input_data)
                     input_tuple = MultiprocessingInput(*input_data)
